@@ -14,7 +14,7 @@ From RX.Spec Require Import Text CstFull CstFullS5.
 From RX.Proofs Require Import Tactics CstLex CstBuild CstNsLex CstNsView CstNsBuild CstULex CstFullLex CstFullBuild CstFullTree CstEntDtd.
 From RX.Proofs Require Import CstFullS2Sem CstFullS3Sem CstFullS3Text CstFullS3Dtd CstFullS3Plug.
 From RX.Proofs Require Import CstFullS5Ws CstFullS5Lex CstFullS5Items CstFullS5Doc.
-From RX.Proofs Require CstDoc CstSoundTText CstFullS3 CstNsItems CstNsDoc.
+From RX.Proofs Require CstDoc CstSoundTText CstFullS3 CstNsItems CstNsDoc DeclBodyLex.
 Open Scope N_scope.
 
 Ltac clia := repeat match goal with H : @eq bool _ true |- _ => clear H end; lia.
@@ -369,24 +369,16 @@ Proof.
     f_equal. f_equal. f_equal. unfold pe, pd. repeat (rewrite ?blen_app, ?blen_cons, ?blen_nil). change (blen E.kw_entity) with 8. clear. lia.
 Qed.
 
-(* ---- ELEMENT / ATTLIST / NOTATION: skipped up to the first '>' ---- *)
-Lemma markup_body body : forallb (fun x => Chars.scalar x && negb (x =? 62)) body = true ->
-  U8.Valid (utf8s body) /\ forallb (fun y => negb (y =? 62)) (utf8s body) = true.
-Proof.
-  intros H. split.
-  - apply scalars_valid. revert H. apply forallb_imp. intros x Hx. apply andb_true_iff in Hx. apply Hx.
-  - apply utf8s_forall; [intros y Hy; clear - Hy; lia|]. revert H. apply forallb_imp. intros x Hx. apply andb_true_iff in Hx. apply Hx.
-Qed.
-
+(* ---- ELEMENT / ATTLIST / NOTATION: skipped up to the first '>' outside a quoted literal ---- *)
 Lemma lex_markup q k body post : WV q (kw_of k ++ utf8s body ++ [62] ++ post) ->
-  forallb (fun x => Chars.scalar x && negb (x =? 62)) body = true ->
+  decl_body_ok body = true ->
   consume_decl text (st q (kw_of k ++ utf8s body ++ [62] ++ post)) = Ok (st (q + blen (kw_of k) + blen (utf8s body) + 1) post).
 Proof.
-  intros HW Hb. destruct (markup_body _ Hb) as [Hv Hn]. unfold consume_decl. rewrite app_assoc in *.
-  rewrite (skip_bytes_st text); [|apply (WV_W _ _ _ HW)| |cbn [app stops]; reflexivity].
-  2:{ rewrite forallb_app, Hn, andb_true_r. destruct k; reflexivity. }
-  pose proof (W_app _ _ _ _ (WV_W _ _ _ HW)) as HW1. cbn [app] in HW1 |- *.
-  rewrite (consume_byte_st text) by exact HW1. rewrite blen_app, N.add_assoc. reflexivity.
+  intros HW Hb. rewrite app_assoc in *. cbn [app] in *.
+  rewrite (DeclBodyLex.consume_decl_fwd text); [|apply (WV_W _ _ _ HW)|].
+  - rewrite blen_app, N.add_assoc. reflexivity.
+  - rewrite DeclBodyLex.scan_plain by apply DeclBodyLex.kw_plain.
+    rewrite <- Hb. apply DeclBodyLex.decl_body_ok_utf8s.
 Qed.
 
 (* ---- a general internal entity: Proofs/CstFullS3Dtd.v with S ---- *)
@@ -547,7 +539,7 @@ Proof.
     apply U8.Valid_app; [apply s_valid; exact Hw2|]. apply U8.Valid_app; [apply extid_valid; exact Hx|].
     apply U8.Valid_app; [|apply U8.Valid_app; [apply s_valid; exact H3|apply Valid_lit; reflexivity]].
     destruct nd as [n|]; [apply ndata_valid; exact Hnd|constructor].
-  - rewrite !andb_true_iff. intros [H0 Hb]. destruct (markup_body _ Hb) as [Hv _].
+  - rewrite !andb_true_iff. intros [[H0 Hb] _]. pose proof (scalars_valid _ Hb) as Hv.
     apply U8.Valid_app; [apply s_valid; exact H0|]. apply U8.Valid_app; [apply Valid_lit; destruct k; reflexivity|].
     apply U8.Valid_app; [exact Hv|apply Valid_lit; reflexivity].
   - rewrite !andb_true_iff. intros [H0 Hi]. apply U8.Valid_app; [apply s_valid; exact H0|].
@@ -728,7 +720,7 @@ Proof.
       { f_equal. f_equal. f_equal. rewrite blen_app. clear. lia. }
       auto 10.
     + (* a skipped declaration *)
-      rewrite !andb_true_iff in Hs. destruct Hs as [H0 Hb].
+      rewrite !andb_true_iff in Hs. destruct Hs as [[H0 _] Hb].
       rewrite r_smarkup_eq in HW, HWv |- *.
       rewrite (skip_spaces_st text); [|exact HW|apply s_spaces; exact H0|destruct k; reflexivity].
       pose proof (WV_lit _ _ _ _ HWv (s_lit _ H0)) as HWa. pose proof (WV_W _ _ _ HWa) as HWa'.
